@@ -74,6 +74,13 @@ pub fn run(a: &Args) {
             None => { st.fail(format!("[C17] the {tag} parser (or writer) panics"), id); "P".into() },
             Some(Err(())) => "E".into(),
             Some(Ok((w, dbg, pos))) => {
+                // an image is the same image wherever it lies in a stream (inside a container, behind a header the caller has already read):
+                // parsing it at a non-zero stream position gives the same structure and consumes the same bytes, writing it there gives the same bytes
+                if b.len() <= 4096 { for off in [1usize, 3, 4, 6] {
+                    let mut pre = vec![0xEEu8; off]; pre.extend_from_slice(b);
+                    let at = guard(|| { let mut c = Cursor::new(&pre[..]); c.set_position(off as u64); match fmt { Fmt::Pth => Pth::read(&mut c).ok().map(|p| { let mut o = Cursor::new(vec![0xEEu8; off]); o.set_position(off as u64); let _ = p.write(&mut o); (format!("{:?}", p), c.position() as usize - off, o.into_inner()[off..].to_vec()) }), Fmt::Smx => Smx::read(&mut c).ok().map(|p| { let mut o = Cursor::new(vec![0xEEu8; off]); o.set_position(off as u64); let _ = p.write(&mut o); (format!("{:?}", p), c.position() as usize - off, o.into_inner()[off..].to_vec()) }) } });
+                    match at { Some(Some((d2, p2, w2))) if d2 == dbg && p2 == pos && w2 == w => {}, Some(Some((d2, p2, w2))) => { st.fail(format!("[C17] the same {tag} image at stream offset {off}: {}", if d2 != dbg { "parses to a different structure".to_string() } else if p2 != pos { format!("consumes {p2} bytes instead of {pos}") } else { format!("is written as {} bytes that differ from the {} written at offset 0", w2.len(), w.len()) }), id.clone()); break; }, Some(None) => { st.fail(format!("[C17] the same {tag} image at stream offset {off} is rejected"), id.clone()); break; }, None => { st.fail(format!("[C17] the same {tag} image at stream offset {off} makes the parser or writer panic"), id.clone()); break; } }
+                } }
                 if canonical && (pos != b.len() || w != b) { st.fail(format!("[C17] a canonical {tag} file of {} bytes re-writes to {} bytes / differs (consumed {pos})", b.len(), w.len()), id.clone()); }
                 match parse_write(fmt, &w) { Some(Ok((w2, dbg2, _))) => { if dbg2 != dbg { st.fail(format!("[C17] parse(write(parse({tag}))) differs from parse"), id.clone()); } if w2 != w { st.fail("[C17] second write differs".into(), id.clone()); } }, _ => st.fail(format!("[C17] a written {tag} file does not parse"), id.clone()) }
                 format!("ok:{}", hex(&w))
